@@ -17,7 +17,7 @@
    *_v functions take both switches explicitly ([clo] first). *)
 From Coq Require Import List ZArith Bool.
 Import ListNotations.
-Require Import BS.Gen.C03_params BS.C03.Model BS.C03.Proofs BS.C03.Safety BS.C03.Theorems
+Require Import BS.Gen.C03_params BS.C03.Model BS.C03.Proofs BS.C03.Safety BS.C03.Released BS.C03.Theorems
                BS.C03.Needed BS.C03.Lockstep BS.C03.Progress BS.C03.Counting.
 
 (* ------------------------------------------------------------------ tie to the source (goparams) *)
@@ -287,3 +287,24 @@ Theorem C03_progress : forall eda g st0 rootss sy,
     forall t, In t (spending (est (get_ev sy e))) -> handed (wst (sw sy) t).
 Proof. exact progress. Qed.
 Print Assumptions C03_progress.
+
+(* ------------------------------------------------------------------ released work starts at once *)
+
+(* Return of a LOST task re-enqueues it from a cleared memo: the task, and every
+   traversable member of its phase whose dependencies are done and which is not
+   pending, is on the todo list when Return returns (so the next Runnable hands it
+   out).  This is the model-side counterpart of the judge's check no. 9 (Corr.v). *)
+Theorem C03_lost_task_rescheduled_at_once : forall eda g w s t u,
+  wf g -> soof s = false -> stodo s = [] ->
+  ret_class (w t) = RLost ->
+  In u (phase g t) -> enq_class eda (w u) = CTrav -> deps_done eda g w u ->
+  (u = t \/ ~ In u (spending s)) ->
+  In u (stodo (ret eda g w s t)).
+Proof. exact lost_task_rescheduled_at_once. Qed.
+Print Assumptions C03_lost_task_rescheduled_at_once.
+
+(* the premises are met by the states the code passes through: a LOST task is in
+   Return's RLost class and Enqueue's traversable class for the current source *)
+Example C03_lost_is_traversable :
+  ret_class TLost = RLost /\ enq_class false TLost = CTrav /\ enq_class false TInit = CTrav.
+Proof. vm_compute. repeat split. Qed.
